@@ -107,6 +107,13 @@ def discharge(ob, timeout_s=10.0, use_fallbacks=True):
     """returns dict(verdict, backend, time, model)"""
     global _INC
     t0 = time.time()
+    dump = os.environ.get('PYVC_DUMP')
+    if dump and dump in ob.id:
+        sd = z3.Solver()
+        sd.add(*ob.hyps)
+        sd.add(z3.Not(ob.goal))
+        with open('/tmp/pyvc_dump_%s.smt2' % ob.id.replace('/', '_').replace('#', '_').replace(':', '_'), 'w') as f:
+            f.write(sd.to_smt2())
     if ob.expect != 'sat' and os.environ.get('PYVC_NO_INCREMENTAL') is None:
         if _INC is None:
             _INC = Incremental()
